@@ -32,11 +32,17 @@ def contexts(d: str) -> list[tuple[str, str, str, bool]]:
     ]
     for i, (qs, qe) in enumerate(c["quotes"].items()):
         out.append((f"quote[{qs}]", qs + "a", "b" + qe + " c", i == 0))
+        # the literal already spans a line: a hole that adds another line break exercises first-vs-last break bookkeeping
+        out.append((f"quote-multiline[{qs}]", qs + "a\nb", "c" + qe + " d", i == 0))
     for i, (s, e) in enumerate(c["identifiers"].items()):
         out.append((f"ident[{s}]", s + "a", "b" + e + " c", False))
+        if i == 0:
+            out.append((f"ident-multiline[{s}]", s + "a\nb", "c" + e + " d", False))
     for s, e in c["comments"].items():
         if e:
             out.append((f"comment[{s}]", "x " + s + " a", "b " + e + " y", False))
+            if s == "/*":
+                out.append((f"comment-multiline[{s}]", "x " + s + " a\nb", "c " + e + " y", False))
         else:
             out.append((f"comment[{s}]", "x " + s + " a", "b\ny", False))
     seen_types = set()
